@@ -190,14 +190,16 @@ Record HInvL (L : list (option Frame)) (s : State) (g : Ghost) : Prop := mkHInv 
 
 Definition HInv (s : State) (g : Ghost) : Prop := HInvL s.(log) s g.
 
-(** [send_streams] counts at least the streams of the map that the application holds. *)
+(** [send_streams] counts at least the streams of the map that the application holds:
+    the locally opened ones and the peer-initiated bidirectional ones that were accepted. *)
 Definition counted (s : State) (k : Z) : bool :=
-  (id_init k =? s.(side)) || (id_index k <? s.(next_reported_bi)).
+  (id_init k =? s.(side)) || ((id_dir k =? 0) && (id_index k <? s.(next_reported_bi))).
 Definition cnt (s : State) : Z := Z.of_nat (length (filter (counted s) (keys s.(send)))).
 
 Record SInv (s : State) (g : Ghost) : Prop := mkSInv {
   c_cnt : cnt s <= s.(send_streams);
   c_rep : 0 <= s.(next_reported_bi);
+  c_rbi : forall k, In k (keys s.(send)) -> id_init k <> s.(side) -> id_dir k = 0;
   c_app : forall id x, lookup id s.(send) = Some (Some x) -> id_init id <> s.(side) ->
             x.(s_state) <> 0 -> id_index id < s.(next_reported_bi);
   c_early : g.(g_phase) <> 2 -> s.(next_reported_bi) = 0
@@ -1272,4 +1274,278 @@ Proof.
   - intros k i a b fin Hl. destruct (live_dead _ _ _ Hl).
   - rewrite F2, E2, U2, U1. exact (h_usum _ _ _ H).
   - intros _ k y Lk. destruct (Hz k y Lk) as ((X1 & X2 & X3 & _) & _). auto.
+Qed.
+
+(* ------------------------------------------------------------------------------------------ *)
+(** * [send_streams] accounting *)
+
+(** [kq s s']: same keys, side, accept counter and [send_streams]; no stream left the Ready state. *)
+Definition kq (s s' : State) : Prop :=
+  side s' = side s /\ keys (send s') = keys (send s)
+  /\ next_reported_bi s' = next_reported_bi s /\ send_streams s' = send_streams s
+  /\ forall id y, lookup id (send s') = Some (Some y) -> s_state y <> 0 ->
+       exists x, lookup id (send s) = Some (Some x) /\ s_state x <> 0.
+
+Lemma kq_refl s : kq s s.
+Proof. repeat split; auto. intros id y L H. exists y. auto. Qed.
+
+Lemma kq_trans a b c : kq a b -> kq b c -> kq a c.
+Proof.
+  intros (A1 & A2 & A3 & A4 & A5) (B1 & B2 & B3 & B4 & B5). repeat split; try congruence.
+  intros id y L H. destruct (B5 id y L H) as (x & Lx & Hx). apply (A5 id x Lx Hx).
+Qed.
+
+Definition kcore (s : State) := (s.(side), s.(send), s.(next_reported_bi), s.(send_streams)).
+
+Lemma kq_core s s' : kcore s = kcore s' -> kq s s'.
+Proof.
+  unfold kcore. intros H. injection H as H1 H2 H3 H4. unfold kq. rewrite <- H1, <- H2, <- H3, <- H4.
+  apply kq_refl.
+Qed.
+
+Ltac kcore_eq :=
+  apply kq_core; unfold kcore, put, push_pending, set_next, set_max, set_blocked;
+  repeat match goal with |- context [if ?c then _ else _] => destruct c end;
+  autorewrite with st; reflexivity.
+
+Lemma kq_put s id x y :
+  lookup id (send s) = Some (Some x) -> (s_state y <> 0 -> s_state x <> 0) -> kq s (put id y s).
+Proof.
+  intros L H. unfold kq, put. autorewrite with st. rewrite keys_update.
+  repeat split; auto. intros k z Lz Hz. rewrite lookup_update in Lz. destruct (k =? id) eqn:E.
+  - assert (k = id) by lia. subst k. rewrite L in Lz. injection Lz as <-. exists x. auto.
+  - exists z. auto.
+Qed.
+
+Lemma kq_touch id s x s1 : touch id s = Some (x, s1) ->
+  kq s s1 /\ lookup id (send s1) = Some (Some x)
+  /\ (lookup id (send s) = Some (Some x) \/ s_state x = 0).
+Proof.
+  unfold touch. destruct (lookup id (send s)) as [[y|]|] eqn:L; [| |discriminate]; intros E; injection E as <- <-.
+  - split; [apply kq_refl|]. auto.
+  - split; [|split; [autorewrite with st; rewrite lookup_update, Z.eqb_refl, L; reflexivity|right; reflexivity]].
+    unfold kq. autorewrite with st. rewrite keys_update. repeat split; auto.
+    intros k z Lz Hz. rewrite lookup_update in Lz. destruct (k =? id) eqn:E.
+    + rewrite L in Lz. injection Lz as <-. cbn in Hz. lia.
+    + exists z. auto.
+Qed.
+
+Lemma sinv_kq s s' g : SInv s g -> kq s s' -> SInv s' g.
+Proof.
+  intros [A B C D E] (K1 & K2 & K3 & K4 & K5).
+  constructor; unfold cnt, counted in *; rewrite ?K1, ?K2, ?K3, ?K4; auto.
+  intros id y L Hr Hs. destruct (K5 id y L Hs) as (x & Lx & Hx). eapply D; eauto.
+Qed.
+
+Lemma sinv_phase2 s g : SInv s g -> SInv s (mkGhost 2 g.(g_par) g.(g_md) g.(g_msd) g.(g_ms) g.(g_closed)).
+Proof. intros [A B C D E]. constructor; auto; cbn; intros Hc; exfalso; apply Hc; reflexivity. Qed.
+
+Lemma sinv_ghost s g g' : (g_phase g' <> 2 -> g_phase g <> 2) -> SInv s g -> SInv s g'.
+Proof. intros Hp [A B C D E]. constructor; auto. Qed.
+
+(** The loops *)
+Lemma tx_loop_kq fuel : forall maxb buf s acc s' buf' fs okf,
+  tx_loop fuel maxb buf s acc = (s', buf', fs, okf) -> kq s s'.
+Proof.
+  induction fuel as [|fuel IH]; intros maxb buf s acc s' buf' fs okf T; cbn [tx_loop] in T.
+  - injection T as <- _ _ _. apply kq_refl.
+  - destruct (buf + 25 <? maxb); [|injection T as <- _ _ _; apply kq_refl].
+    destruct (pendq s) as [|id q] eqn:Pq; [injection T as <- _ _ _; apply kq_refl|].
+    assert (S1 : kq s (set_pendq q s)) by kcore_eq.
+    destruct (lookup id (send (set_pendq q s))) as [[x|]|] eqn:L.
+    + destruct (s_state x =? 3).
+      * eapply kq_trans; [exact S1|eapply IH; exact T].
+      * destruct (poll_transmit (maxb - buf - 1 - vsize id) x) as [[[a b] enc] x1] eqn:P.
+        destruct (poll_transmit_credit _ _ _ _ _ _ P) as (_ & _ & Ps).
+        eapply kq_trans; [exact S1|]. eapply kq_trans; [|eapply IH; exact T].
+        match goal with |- kq _ (if ?c then push_pending _ ?t else _) =>
+          assert (S2 : kq (set_pendq q s) t) end.
+        { eapply kq_put; [exact L|]. destruct ((b =? s_offset x1) && ((s_state x1 =? 1) || (s_state x1 =? 2)));
+            autorewrite with st; congruence. }
+        destruct (is_pending _); [|exact S2].
+        eapply kq_trans; [exact S2|]. kcore_eq.
+    + eapply kq_trans; [exact S1|eapply IH; exact T].
+    + eapply kq_trans; [exact S1|eapply IH; exact T].
+Qed.
+
+Lemma cb_loop_kq st : forall s, kq s (fst (cb_loop st s)).
+Proof.
+  induction st as [|id t IH]; intros s; cbn [cb_loop].
+  - cbn [fst]. kcore_eq.
+  - destruct (lookup id (send s)) as [[x|]|] eqn:L; try apply IH.
+    assert (S1 : kq s (put id (set_s_cb false x) s))
+      by (eapply kq_put; [exact L|]; autorewrite with st; auto).
+    destruct ((s_state x =? 0) && (s_offset x <? s_max_data x)).
+    + cbn [fst]. eapply kq_trans; [exact S1|]. kcore_eq.
+    + eapply kq_trans; [exact S1|apply IH].
+Qed.
+
+Lemma retry_stream_kq fixed id s s' : retry_stream fixed id s = Some s' -> kq s s'.
+Proof.
+  unfold retry_stream. destruct (lookup id (send s)) as [[x|]|] eqn:L;
+    try (intros E; injection E as <-; apply kq_refl).
+  destruct ((s_ulen x =? 0) && negb (s_fin_pending x) && negb (fixed && ((s_state x =? 1) || (s_state x =? 2))));
+    [intros E; injection E as <-; apply kq_refl|].
+  match goal with |- context [if ?c then Some ?t else None] => destruct c; [|discriminate] end.
+  intros E; injection E as <-.
+  match goal with |- kq s (put id ?y ?t) =>
+    assert (S0 : kq s t) by (destr_if; try apply kq_refl; kcore_eq);
+    assert (L0 : lookup id (send t) = Some (Some x)) by (destr_if; unfold push_pending; autorewrite with st; exact L)
+  end.
+  eapply kq_trans; [exact S0|]. eapply kq_put; [exact L0|]. destr_if; autorewrite with st; auto.
+Qed.
+
+Lemma retry_dir_kq fixed d n : forall s s', retry_dir fixed d n s = Some s' -> kq s s'.
+Proof.
+  induction n as [|n IH]; intros s s' R; cbn [retry_dir] in R.
+  - injection R as <-. apply kq_refl.
+  - destruct (retry_dir fixed d n s) as [s1|] eqn:R1; [|discriminate].
+    eapply kq_trans; [apply IH; exact R1|eapply retry_stream_kq; exact R].
+Qed.
+
+Lemma retry_kq s s' : do_retry s = Some s' -> kq s s'.
+Proof.
+  unfold do_retry, retry_with.
+  destruct (retry_dir RETRY_FIXED 0 (Z.to_nat (next_bi s)) s) as [s1|] eqn:R1; [|discriminate].
+  destruct (retry_dir RETRY_FIXED 1 (Z.to_nat (next_uni s1)) s1) as [s2|] eqn:R2; [|discriminate].
+  intros E; injection E as <-.
+  eapply kq_trans; [eapply retry_dir_kq; exact R1|].
+  eapply kq_trans; [eapply retry_dir_kq; exact R2|]. kcore_eq.
+Qed.
+
+(** Operations that are [kq] *)
+Lemma write_kq id n s s' r : do_write id n s = Some (s', r) -> kq s s'.
+Proof.
+  unfold do_write. destruct (write_limit s) as [limit|]; [|discriminate].
+  destruct (touch id s) as [[x s1]|] eqn:T; [|intros E; injection E as <- _; apply kq_refl].
+  destruct (kq_touch _ _ _ _ T) as (K1 & L1 & _).
+  intros W. eapply kq_trans; [exact K1|]. unfold ok in W.
+  destruct (limit =? 0).
+  { destruct (s_cb x); injection W as <- _; [apply kq_refl|].
+    eapply kq_trans; [eapply (kq_put s1 id x (set_s_cb true x) L1); autorewrite with st; auto|kcore_eq]. }
+  destruct (negb (s_state x =? 0)); [injection W as <- _; apply kq_refl|].
+  destruct (s_stop x); [injection W as <- _; apply kq_refl|].
+  destruct (s_max_data x <? s_offset x); [discriminate|].
+  destruct (s_max_data x - s_offset x =? 0); [injection W as <- _; apply kq_refl|].
+  injection W as <- _.
+  match goal with |- kq s1 (if _ then ?t else push_pending id ?t) =>
+    assert (S2 : kq s1 t) end.
+  { eapply kq_trans; [eapply (kq_put s1 id x _ L1)|kcore_eq]. autorewrite with st. auto. }
+  destruct (is_pending x); [exact S2|]. eapply kq_trans; [exact S2|kcore_eq].
+Qed.
+
+Lemma on_stream_frame_kq id s : kq s (on_stream_frame id s).
+Proof. unfold on_stream_frame. destr_if; try apply kq_refl; kcore_eq. Qed.
+
+Lemma stop_sending_kq id code s : kq s (do_stop_sending id code s).
+Proof.
+  unfold do_stop_sending. destruct (touch id s) as [[x s1]|] eqn:T; [|apply kq_refl].
+  destruct (kq_touch _ _ _ _ T) as (K1 & L1 & _). eapply kq_trans; [exact K1|].
+  destruct (s_stop x); [apply kq_refl|].
+  eapply kq_trans; [|apply on_stream_frame_kq].
+  eapply kq_trans; [eapply (kq_put s1 id x (set_s_stop (Some code) x) L1); autorewrite with st; auto|kcore_eq].
+Qed.
+
+Lemma max_stream_data_kq id v s s' r : do_max_stream_data id v s = Some (s', r) -> kq s s'.
+Proof.
+  unfold do_max_stream_data, ok.
+  destruct (negb (id_init id =? side s) && (id_dir id =? 1)); [intros E; injection E as <- _; apply kq_refl|].
+  destruct (write_limit s) as [wl|]; [|discriminate].
+  destruct (touch id s) as [[x s1]|] eqn:T.
+  2:{ destr_if; intros E; injection E as <- _; [apply kq_refl|apply on_stream_frame_kq]. }
+  destruct (kq_touch _ _ _ _ T) as (K1 & L1 & _).
+  intros E; injection E as <- _. eapply kq_trans; [exact K1|]. eapply kq_trans; [|apply on_stream_frame_kq].
+  destruct ((s_max_data x <? v) && (s_state x =? 0)); [|apply kq_refl].
+  assert (Hp : forall y, s_state y = s_state x -> kq s1 (put id y s1))
+    by (intros y Hy; eapply kq_put; [exact L1|]; congruence).
+  destruct (s_offset x =? s_max_data x); [|apply Hp; autorewrite with st; reflexivity].
+  destruct (0 <? wl).
+  - eapply kq_trans; [apply (Hp (set_s_max_data v x)); autorewrite with st; reflexivity|kcore_eq].
+  - autorewrite with st. destruct (s_cb x); [apply Hp; autorewrite with st; reflexivity|].
+    eapply kq_trans; [apply (Hp (set_s_cb true (set_s_max_data v x))); autorewrite with st; reflexivity|kcore_eq].
+Qed.
+
+Lemma poll_kq s s' r : do_poll s = Some (s', r) -> kq s s'.
+Proof.
+  unfold do_poll, pop_event, ok.
+  destruct (opened_bi s); [intros E; injection E as <- _; kcore_eq|].
+  destruct (write_limit s) as [wl|]; [|discriminate].
+  destruct (0 <? wl).
+  - pose proof (cb_loop_kq (conn_blocked s) s) as S1.
+    destruct (cb_loop (conn_blocked s) s) as [s1 [id|]]; cbn [fst] in S1.
+    + intros E; injection E as <- _. exact S1.
+    + destruct (events s1); intros E; injection E as <- _; [exact S1|].
+      eapply kq_trans; [exact S1|kcore_eq].
+  - destruct (events s); intros E; injection E as <- _; [apply kq_refl|kcore_eq].
+Qed.
+
+Lemma transmit_kq maxb s s' r : do_transmit maxb s = Some (s', r) -> kq s s'.
+Proof.
+  unfold do_transmit, ok. destruct (tx_loop _ maxb 0 s []) as [[[s1 buf] fs] okf] eqn:T.
+  intros E; injection E as <- _. eapply kq_trans; [eapply tx_loop_kq; exact T|kcore_eq].
+Qed.
+
+Lemma lost_kq f s s' r : do_lost f s = Some (s', r) -> kq s s'.
+Proof.
+  unfold do_lost, ok. destruct f as [[[id a] b] fin].
+  destruct (lookup id (send s)) as [[x|]|] eqn:L; try (intros E; injection E as <- _; apply kq_refl).
+  destruct (s_unsent x <? b); [discriminate|]. cbv zeta. intros E; injection E as <- _.
+  destruct (is_pending x).
+  - eapply kq_put; [exact L|]. autorewrite with st. auto.
+  - eapply kq_trans; [|eapply kq_put; [unfold push_pending; autorewrite with st; exact L|]; autorewrite with st; auto].
+    kcore_eq.
+Qed.
+
+(** Counting *)
+Lemma cnt_filter_insert f id v m :
+  length (filter f (keys (insert id v m))) = (length (filter f (keys m)) + (if f id then 1 else 0))%nat.
+Proof.
+  induction m as [|[a w] t IH]; cbn [insert keys map fst filter].
+  - destruct (f id); cbn; lia.
+  - destruct (id <? a); cbn [map fst filter].
+    + destruct (f id), (f a); cbn [length]; fold (keys t); lia.
+    + fold (keys (insert id v t)). fold (keys t). destruct (f a); cbn [length]; rewrite IH; lia.
+Qed.
+
+Lemma cnt_filter_remove f id m :
+  NoDup (keys m) -> In id (keys m) ->
+  (length (filter f (keys (remove id m))) + (if f id then 1 else 0))%nat = length (filter f (keys m)).
+Proof.
+  induction m as [|[a w] t IH]; cbn [remove keys map fst filter In]; intros N Hin; [tauto|].
+  inversion N as [|? ? Hn Hd]; subst.
+  destruct (a =? id) eqn:E.
+  - assert (a = id) by lia. subst a. fold (keys t). destruct (f id); cbn [length]; lia.
+  - destruct Hin as [Hin|Hin]; [lia|]. cbn [map fst filter]. fold (keys (remove id t)). fold (keys t).
+    specialize (IH Hd Hin). destruct (f a); cbn [length]; lia.
+Qed.
+
+Lemma filter_le (f f' : Z -> bool) l :
+  (forall k, In k l -> f' k = true -> f k = true) ->
+  (length (filter f' l) <= length (filter f l))%nat.
+Proof.
+  induction l as [|a t IH]; intros H; cbn [filter length]; [lia|].
+  assert (IH' : (length (filter f' t) <= length (filter f t))%nat)
+    by (apply IH; intros k Hk; apply H; right; exact Hk).
+  destruct (f' a) eqn:Ea.
+  - rewrite (H a (or_introl eq_refl) Ea). cbn [length]. lia.
+  - destruct (f a); cbn [length]; lia.
+Qed.
+
+Lemma filter_le_one (f f' : Z -> bool) k0 l :
+  NoDup l -> (forall k, In k l -> f' k = true -> f k = true \/ k = k0) ->
+  (length (filter f' l) <= length (filter f l) + 1)%nat.
+Proof.
+  induction l as [|a t IH]; intros N H; cbn [filter length]; [lia|].
+  inversion N as [|? ? Hn Hd]; subst.
+  destruct (Z.eq_dec a k0) as [Ea|Hne].
+  - subst a.
+    assert (Ht : (length (filter f' t) <= length (filter f t))%nat).
+    { apply filter_le. intros k Hk Hf. destruct (H k (or_intror Hk) Hf) as [|E]; [assumption|].
+      subst k. contradiction. }
+    destruct (f' k0), (f k0); cbn [length]; lia.
+  - assert (Ha : f' a = true -> f a = true).
+    { intros Ha. destruct (H a (or_introl eq_refl) Ha); [assumption|contradiction]. }
+    assert (IH' : (length (filter f' t) <= length (filter f t) + 1)%nat)
+      by (apply IH; [exact Hd|intros k Hk; apply H; right; exact Hk]).
+    destruct (f' a) eqn:Ea; [rewrite (Ha eq_refl)|destruct (f a)]; cbn [length]; lia.
 Qed.
